@@ -35,6 +35,19 @@ class _Undefined:
         return "<jsonpath.pointer.UNDEFINED>"
 
 
+def _decode_unicode_escapes(s: str) -> str:
+    # The "unicode-escape" codec decodes bytes as Latin-1, so non-ASCII
+    # characters are written as escape sequences first or they'd be mangled.
+    return (
+        codecs.decode(
+            s.replace("\\/", "/").encode("latin-1", "backslashreplace"),
+            "unicode-escape",
+        )
+        .encode("utf-16", "surrogatepass")
+        .decode("utf-16")
+    )
+
+
 UNDEFINED = _Undefined()
 
 
@@ -246,11 +259,7 @@ class JSONPointer:
         # UTF-16 escape sequences - possibly surrogate pairs - inside UTF-8
         # encoded strings. As per https://datatracker.ietf.org/doc/html/rfc4627
         # section 2.5.
-        return (
-            codecs.decode(s.replace("\\/", "/"), "unicode-escape")
-            .encode("utf-16", "surrogatepass")
-            .decode("utf-16")
-        )
+        return _decode_unicode_escapes(s)
 
     @classmethod
     def from_match(
@@ -296,12 +305,7 @@ class JSONPointer:
         if uri_decode:
             _parts = (unquote(p) for p in _parts)
         if unicode_escape:
-            _parts = (
-                codecs.decode(p.replace("\\/", "/"), "unicode-escape")
-                .encode("utf-16", "surrogatepass")
-                .decode("utf-16")
-                for p in _parts
-            )
+            _parts = (_decode_unicode_escapes(p) for p in _parts)
 
         __parts = tuple(_parts)
 
